@@ -1178,7 +1178,7 @@ type fcallObs struct {
 
 func genFcase(seed uint64, stats *fstats) *fcaseDesc {
 	r := newRng(seed)
-	c := &fcaseDesc{mode: "fresh", maximum: 8}
+	c := &fcaseDesc{mode: "fresh", maximum: cdc.Formatter().DefaultMaximum()}
 	switch x := r.intn(10); {
 	case x < 2:
 		c.mode = "shared"
